@@ -1039,6 +1039,7 @@ Definition mismatched_lend (cfg : config) (st : state) (j : Z) : bool :=
   match zget (borrows st) j with
   | None => false
   | Some b =>
+      if b_liq b then false else
       match zget (c_pairs cfg) (b_pair b), zget (lends st) (b_lend b) with
       | Some pr, Some l => negb (l_asset l =? pr_in pr)
       | _, _ => false
